@@ -898,7 +898,10 @@ func concShapeRound3(repo string, dirs []string, unknown *[]string) (string, err
 				thenInfers := irContainsCall(is.Body, "p", "inferExprType")
 				elseInfers := irContainsCall(is.Else, "p", "inferExprType")
 				elseStores := strings.Contains(src(is.Else), "p.LetTypes[")
+				thenMessage := strings.Contains(src(is.Body), "p.Messages[viewName] = append(p.Messages[viewName]")
 				switch {
+				case !thenInfers && elseInfers && elseStores && thenMessage: // (second pass) the skipped let leaves a message
+					letGuard = "seen:message+skip;new:infer+record"
 				case !thenInfers && elseInfers && elseStores:
 					letGuard = "seen:skip;new:infer+record"
 				default:
@@ -1181,6 +1184,130 @@ func concShapeRound3(repo string, dirs []string, unknown *[]string) (string, err
 		}
 	}
 
+	// ---- (round 3, second pass) what Parser.Parse does to the accumulators before anything else, and the only way into
+	// view inference.  parse_reset_fields: the fields F of the leading statements `p.F = <empty map>` of Parse, plain or under
+	// `if p.F == nil || len(p.F) > 0` (the prefix
+	// of its body that consists of such statements; anything else ends it).  infer_entry: every
+	// function of pkg/parse on the way up from inferExprType to Parse, with the functions of pkg/parse that mention it.
+	var resetFields []string
+	if fd := irFindFunc(pf, "Parse"); fd == nil || recvName(fd) != "Parser" || fd.Body == nil {
+		unk("Parser.Parse not found")
+	} else {
+		rv := recvVar(fd)
+		emptyMap := func(e ast.Expr) bool {
+			switch v := e.(type) {
+			case *ast.CompositeLit:
+				_, isMap := v.Type.(*ast.MapType)
+				return isMap && len(v.Elts) == 0
+			case *ast.CallExpr:
+				if isIdent(v.Fun, "make") && len(v.Args) == 1 {
+					_, isMap := v.Args[0].(*ast.MapType)
+					return isMap
+				}
+			}
+			return false
+		}
+		// `p.F = <empty map>`, or the same under `if p.F == nil || len(p.F) > 0` (a map that holds nothing is as good as
+		// a new one)
+		resetOf := func(st ast.Stmt) string {
+			as, ok := st.(*ast.AssignStmt)
+			if !ok || as.Tok != token.ASSIGN || len(as.Lhs) != 1 || len(as.Rhs) != 1 || !emptyMap(as.Rhs[0]) {
+				return ""
+			}
+			se, ok := as.Lhs[0].(*ast.SelectorExpr)
+			if !ok || !isIdent(se.X, rv) {
+				return ""
+			}
+			return se.Sel.Name
+		}
+		for _, st := range fd.Body.List {
+			f := resetOf(st)
+			if is, ok := st.(*ast.IfStmt); ok && is.Init == nil && is.Else == nil && len(is.Body.List) == 1 {
+				if g := resetOf(is.Body.List[0]); g != "" && src(is.Cond) == fmt.Sprintf("%s.%s == nil || len(%s.%s) > 0", rv, g, rv, g) {
+					f = g
+				}
+			}
+			if f == "" {
+				break
+			}
+			resetFields = append(resetFields, f)
+		}
+	}
+	var inferEntry []string
+	{
+		callersOf := func(callee string) []string {
+			var callers []string
+			for _, file := range parseFiles {
+				for _, fd := range funcDecls(file) {
+					if fd.Body == nil {
+						continue
+					}
+					found := false
+					ast.Inspect(fd.Body, func(x ast.Node) bool {
+						if se, ok := x.(*ast.SelectorExpr); ok && se.Sel.Name == callee {
+							found = true
+						}
+						if id, ok := x.(*ast.Ident); ok && id.Name == callee {
+							found = true
+						}
+						return !found
+					})
+					if found {
+						callers = append(callers, fd.Name.Name)
+					}
+				}
+			}
+			return callers
+		}
+		// upwards from inferExprType until Parse (where the accumulators are made fresh): every function on the way
+		work, seen := []string{"inferExprType"}, map[string]bool{"inferExprType": true, "Parse": true}
+		for len(work) > 0 && len(inferEntry) < 40 {
+			callee := work[0]
+			work = work[1:]
+			callers := callersOf(callee)
+			inferEntry = append(inferEntry, fmt.Sprintf("(%s, %s)", coqStr(callee), csStrs(callers)))
+			for _, c := range callers {
+				if !seen[c] {
+					seen[c] = true
+					work = append(work, c)
+				}
+			}
+		}
+	}
+
+	// ---- (second pass) fixTypeRefScope: its statements (comments dropped by go/printer on a statement), and where the
+	// application loop of postProcess calls what: the calls of the listed functions in source order inside the range body
+	var fixShape, loopCalls []string
+	if fd := irFindFunc(pf, "fixTypeRefScope"); fd == nil || fd.Body == nil {
+		unk("fixTypeRefScope not found")
+	} else {
+		for _, st := range fd.Body.List {
+			fixShape = append(fixShape, coqStr(src(st)))
+		}
+	}
+	if fd := irFindFunc(pf, "postProcess"); fd == nil || fd.Body == nil {
+		unk("postProcess not found")
+	} else {
+		for _, st := range fd.Body.List {
+			rs, ok := st.(*ast.RangeStmt)
+			if !ok || !strings.Contains(src(rs.X), "appNames") {
+				continue
+			}
+			ast.Inspect(rs.Body, func(x ast.Node) bool {
+				switch v := x.(type) {
+				case *ast.CallExpr:
+					switch n := csCallee(v); n {
+					case "fixParamTypeRef", "fixTypeRefScope", "inferTypes", "collectorPubSubCalls", "renestTypes", "GetApp":
+						loopCalls = append(loopCalls, coqStr(n))
+					}
+				case *ast.RangeStmt:
+					loopCalls = append(loopCalls, coqStr("range "+src(v.X)))
+				}
+				return true
+			})
+		}
+	}
+
 	var b strings.Builder
 	b.WriteString("(* round 3 *)\n")
 	fmt.Fprintf(&b, "Definition infer_views_order : string := %s.\n", coqStr(viewsOrder))
@@ -1197,6 +1324,10 @@ func concShapeRound3(repo string, dirs []string, unknown *[]string) (string, err
 	fmt.Fprintf(&b, "Definition file_index_shape : list string := %s.\n", csList(indexShape))
 	fmt.Fprintf(&b, "Definition parse_map_ranges : list (string * string * string) := %s.\n", csList(ranges))
 	fmt.Fprintf(&b, "Definition dep_globals : list (string * string * string) := %s.\n", csList(depGlobals))
+	fmt.Fprintf(&b, "Definition parse_reset_fields : list string := %s.\n", csStrs(resetFields))
+	fmt.Fprintf(&b, "Definition fix_ref_shape : list string := %s.\n", csList(fixShape))
+	fmt.Fprintf(&b, "Definition post_loop_calls : list string := %s.\n", csList(loopCalls))
+	fmt.Fprintf(&b, "Definition infer_entry : list (string * list string) := %s.\n", csList(inferEntry))
 	return b.String(), nil
 }
 
